@@ -6,7 +6,7 @@ CONSTANTS
   HdrBody = 2
   DescIds = {1, 2}
   MaxTransient = 1
-  Dev = {"BoundaryRaises"}
+  Dev = {"LostDescTolerated"}
 INVARIANT IntactPrefix
 INVARIANT CompleteReadsAll
 INVARIANT TypeOK
